@@ -138,6 +138,7 @@ def write_graph(molecule, smiles_format=False, default_element='*'):
         if current in atom_to_ring_idx:
             # We're going to need to write a ring number
             ring_idxs = atom_to_ring_idx[current]
+            ring_strs = []
             for ring_idx in ring_idxs:
                 ring_bond = ring_idx_to_bond[ring_idx]
                 if ring_idx not in ring_idx_to_marker:
@@ -148,11 +149,16 @@ def write_graph(molecule, smiles_format=False, default_element='*'):
                     marker = ring_idx_to_marker.pop(ring_idx)
                     new_marker = False
 
+                ring_str = ''
                 if _write_edge_symbol(molecule, *ring_bond) and new_marker:
                     order = molecule.edges[ring_bond].get('order', 1)
-                    smiles += order_to_symbol[order]
+                    ring_str += order_to_symbol[order]
 
-                smiles += str(marker) if marker < 10 else '%{}'.format(marker)
+                ring_str += str(marker) if marker < 10 else '%{}'.format(marker)
+                ring_strs.append((marker >= 10, ring_str))
+            # the reader takes all digits following a % as one marker, so a
+            # %nn marker must not be followed by a single digit marker
+            smiles += ''.join(ring_str for _, ring_str in sorted(ring_strs, key=lambda item: item[0]))
 
         if current in dfs_successors:
             # Proceed to the next node in this branch
